@@ -130,9 +130,6 @@ fn answers_check(t: &mut Tally, obj: &str, id: &str, got: &Value, want: &BTreeMa
 
 pub struct Expect<'a> {
     pub model: &'a Model,
-    /// frontends whose address has no declared listener are tolerated (an implicit default
-    /// listener is then accepted and required)
-    pub allow_implicit_listeners: bool,
 }
 
 fn glob_u64(m: &Model, k: &str) -> Option<u64> {
@@ -149,7 +146,17 @@ pub fn compare(ex: &Expect, st: &ConfigState, t: &mut Tally) {
     // ---------------------------------------------------------------- listeners
     let mut proto_of: BTreeMap<SocketAddr, LProto> = BTreeMap::new();
     let mut listener_cert: BTreeMap<SocketAddr, usize> = BTreeMap::new();
-    for l in &m.listeners {
+    // frontends on an address no `[[listeners]]` entry declares: when the loader accepts them it
+    // creates a default listener; that listener is judged like a declared one with every option
+    // unset (documented defaults, activation, and every listener-level validation rule)
+    let implicit = implicit_listeners(m);
+    let synthesized: Vec<Listener> = implicit.iter().map(|(a, p)| Listener::new(*p, *a)).collect();
+    if !implicit.is_empty() {
+        t.obs("files_with_implicit_listeners", 1);
+        t.obs("frontends_without_declared_listener", implicit.len() as u64);
+    }
+    for (li, l) in m.listeners.iter().chain(synthesized.iter()).enumerate() {
+        let is_implicit = li >= m.listeners.len();
         proto_of.insert(l.addr, l.proto);
         let obj = match l.proto {
             LProto::Http => "http_listener",
@@ -167,10 +174,22 @@ pub fn compare(ex: &Expect, st: &ConfigState, t: &mut Tally) {
             LProto::Udp => st.udp_listeners.get(&l.addr).and_then(|x| serde_json::to_value(x).ok()),
         };
         let Some(got) = got else {
-            t.fail(format!("state/listener_missing/{}", l.proto.name()), format!("{} listener {id} declared in the file is absent from the loaded state", l.proto.name()));
+            if is_implicit {
+                t.fail(format!("state/frontend_without_listener/{}", l.proto.name()), format!("a frontend on {id} was loaded although no {} listener exists on that address (neither declared nor created)", l.proto.name()));
+            } else {
+                t.fail(format!("state/listener_missing/{}", l.proto.name()), format!("{} listener {id} declared in the file is absent from the loaded state", l.proto.name()));
+            }
             continue;
         };
         t.obs("listeners_compared", 1);
+        if is_implicit {
+            t.obs("implicit_listener_created", 1);
+            t.obs(&format!("implicit_listeners_compared.{}", l.proto.name()), 1);
+            if l.proto == LProto::Https && glob_u64(m, "buffer_size") == Some(16_393) {
+                // boundary: the smallest buffer_size an h2-capable listener allows
+                t.obs("implicit_https_listener_with_buffer_size_16393", 1);
+            }
+        }
         if got["active"] != json!(want_active) {
             t.fail(
                 format!("state/listener_activation/{}", l.proto.name()),
@@ -280,35 +299,8 @@ pub fn compare(ex: &Expect, st: &ConfigState, t: &mut Tally) {
             t.field(obj, "max_flows", &got["max_flows"], o("max_flows"), Some(json!(0)), false, &id);
         }
     }
-    // implicit listeners (only in the tolerant mode)
-    let mut implicit: BTreeMap<SocketAddr, LProto> = BTreeMap::new();
-    for c in &m.clusters {
-        for f in &c.frontends {
-            if !proto_of.contains_key(&f.addr) {
-                let p = if !c.http { LProto::Tcp } else if f.cert.is_some() { LProto::Https } else { LProto::Http };
-                implicit.entry(f.addr).or_insert(p);
-            }
-        }
-    }
-    if !implicit.is_empty() {
-        t.obs("frontends_without_declared_listener", implicit.len() as u64);
-        for (a, p) in &implicit {
-            let present = match p {
-                LProto::Http => st.http_listeners.contains_key(a),
-                LProto::Https => st.https_listeners.contains_key(a),
-                LProto::Tcp => st.tcp_listeners.contains_key(a),
-                LProto::Udp => st.udp_listeners.contains_key(a),
-            };
-            if !present {
-                t.fail(format!("state/frontend_without_listener/{}", p.name()), format!("a frontend on {a} was loaded although no {} listener exists on that address (neither declared nor created)", p.name()));
-            } else {
-                t.obs("implicit_listener_created", 1);
-                proto_of.insert(*a, *p);
-            }
-        }
-    }
     let n_state_listeners = st.http_listeners.len() + st.https_listeners.len() + st.tcp_listeners.len() + st.udp_listeners.len();
-    let n_want = m.listeners.len() + if ex.allow_implicit_listeners { implicit.len() } else { 0 };
+    let n_want = m.listeners.len() + implicit.len();
     if n_state_listeners > n_want {
         let known: BTreeSet<SocketAddr> = proto_of.keys().copied().collect();
         let extra: Vec<String> = st.http_listeners.keys().chain(st.https_listeners.keys()).chain(st.tcp_listeners.keys()).chain(st.udp_listeners.keys()).filter(|a| !known.contains(a)).take(3).map(|a| a.to_string()).collect();
